@@ -470,6 +470,9 @@ Definition p_step (s : pstate) (l : plabel) : option pstate :=
                   end
               | None => None
               end
+          | PsHas c _, _ =>
+              (* exchange's select takes <-ctx.Done(): the caller leaves and releases the connection itself *)
+              Some (pset_task s t {| pt_stage := PsRel1 c false; pt_res := fail_res (pt_res k); pt_retry := pt_retry k |})
           | _, _ => Some (pset_task s t {| pt_stage := pt_stage k; pt_res := fail_res (pt_res k); pt_retry := pt_retry k |})
           end
       | None => None
@@ -757,3 +760,252 @@ Fixpoint close_calls (pinned : bool) (fuel : nat) (t : closee) : res (list close
   end.
 
 Definition all_ukinds : list ukind := [KUdp; KTcp; KTcpPipeline; KTls; KTlsPipeline; KHttps; KH3; KQuic].
+
+(* =====================================================================================================
+   Part 4 — deterministic big-step semantics for quiescent histories (what the harness replays)
+   An external event (new exchange, dial result, server reply, peer error, caller cancel, idle time-out,
+   Close) is applied, then every enabled internal step runs to completion.  By construction every
+   big step is a sequence of small steps ([r_big_refines], [p_big_refines] in ShutdownProofs).
+   [honour] = the injected dialer returns as soon as its context is cancelled (a dial pending at Close fails
+   at once); otherwise the dial stays pending until the script completes it (a "late" dial).
+   ===================================================================================================== *)
+
+Inductive xev :=
+| XSpawn | XDialOk (i : nat) | XDialFail (i : nat) | XReply (t : nat) | XPeerErr (t : nat)
+| XCancel (t : nat) | XIdle | XClose.
+
+Fixpoint find_idx {A} (p : A -> bool) (l : list A) (off : nat) : option nat :=
+  match l with
+  | [] => None
+  | x :: tl => if p x then Some off else find_idx p tl (S off)
+  end.
+
+(* ---- reuse ---- *)
+Definition r_internal (honour : bool) (s : rstate) (t : nat) (k : rtask) : option rlabel :=
+  match rt_stage k with
+  | RsStart => Some (RGetIdle t (if rs_closed s then None else find_idx rc_idle (rs_conns s) 0))
+  | RsDialing => if honour && rs_closed s then Some (RDialFail t) else None
+  | RsReturned => Some (RRegister t)
+  | RsDeliver _ => Some (RDeliver t)
+  | RsHas c _ => match nth_error (rs_conns s) c with
+                 | Some kc => if rc_open kc then None else Some (RIoClosed t)
+                 | None => None
+                 end
+  | RsRel1 _ _ => Some (RRel1 t)
+  | RsRel2 _ _ => Some (RRel2 t)
+  | RsDone => None
+  end.
+
+Fixpoint r_first_internal (honour : bool) (s : rstate) (ts : list rtask) (off : nat) : option rlabel :=
+  match ts with
+  | [] => None
+  | k :: tl => match r_internal honour s off k with
+               | Some l => Some l
+               | None => r_first_internal honour s tl (S off)
+               end
+  end.
+
+Fixpoint r_quiesce (honour : bool) (fuel : nat) (s : rstate) : rstate :=
+  match fuel with
+  | O => s
+  | S f => match r_first_internal honour s (rs_tasks s) 0 with
+           | Some l => match r_step s l with Some s' => r_quiesce honour f s' | None => s end
+           | None => s
+           end
+  end.
+
+Definition r_ext_labels (s : rstate) (e : xev) : list rlabel :=
+  match e with
+  | XSpawn => [RSpawn]
+  | XDialOk t => [RDialOk t]
+  | XDialFail t => [RDialFail t]
+  | XReply t => [RIoOk t]
+  | XPeerErr t => [RIoPeerErr t]
+  | XCancel t => [RCancel t]
+  | XIdle => map RIdleFire (seq 0 (length (rs_conns s)))
+  | XClose => [RClose]
+  end.
+
+Definition big_fuel : nat := 200.
+
+Definition r_big (honour : bool) (s : rstate) (e : xev) : option rstate :=
+  match r_run s (r_ext_labels s e) with
+  | Some s1 => Some (r_quiesce honour big_fuel s1)
+  | None => None
+  end.
+
+Definition r_quiet (honour : bool) (s : rstate) : bool :=
+  match r_first_internal honour s (rs_tasks s) 0 with None => true | Some _ => false end.
+
+Definition r_is_dialing (s : rstate) (t : nat) : bool :=
+  match nth_error (rs_tasks s) t with
+  | Some k => match rt_stage k with RsDialing => true | _ => false end
+  | None => false
+  end.
+
+(* ---- pipeline ---- *)
+Definition pc_is_busy (maxs : nat) (k : pconn) : bool :=
+  match pc_where k with PBusy n => negb (pc_closed k) && (n <? maxs) | _ => false end.
+Definition pc_is_idle (k : pconn) : bool :=
+  match pc_where k with PIdle => negb (pc_closed k) | _ => false end.
+Definition pc_in_idle (k : pconn) : bool := match pc_where k with PIdle => true | _ => false end.
+Definition pc_in_busy (k : pconn) : bool := match pc_where k with PBusy _ => true | _ => false end.
+
+Fixpoint idle_indices (l : list pconn) (off : nat) : list nat :=
+  match l with
+  | [] => []
+  | k :: tl => (if pc_in_idle k then [off] else []) ++ idle_indices tl (S off)
+  end.
+
+(* Pool.Get's choice: a busy conn with room, else an idle conn, else join the last dial call, else dial *)
+Definition p_choose (maxs : nat) (s : pstate) : pget :=
+  match find_idx (pc_is_busy maxs) (ps_conns s) 0 with
+  | Some c => GBusy c
+  | None =>
+      match find_idx pc_is_idle (ps_conns s) 0 with
+      | Some c => GIdle c
+      | None =>
+          match ps_last s with
+          | Some d => match nth_error (ps_dials s) d with
+                      | Some dd => if pd_queue dd <? maxs then GJoin else GNew
+                      | None => GNew
+                      end
+          | None => GNew
+          end
+      end
+  end.
+
+(* Pool.Release's trimming rule after conn c went idle: keep max(#busy, 1) idle connections *)
+Definition p_trim_choice (s : pstate) (c : nat) : list nat :=
+  match nth_error (ps_conns s) c with
+  | Some kc =>
+      match pc_where kc with
+      | PBusy 1 =>
+          let conns' := upd (ps_conns s) c (pc_at kc PIdle) in
+          let idle := idle_indices conns' 0 in
+          let busy := length (filter pc_in_busy conns') in
+          firstn (length idle - Nat.max busy 1) idle
+      | _ => []
+      end
+  | None => []
+  end.
+
+Definition p_internal_task (maxs : nat) (s : pstate) (t : nat) (k : ptask) : option plabel :=
+  match pt_stage k with
+  | PsStart => Some (PGet t (p_choose maxs s))
+  | PsWait d => match nth_error (ps_dials s) d with
+                | Some dd => match pd_result dd with Some _ => Some (PWake t) | None => None end
+                | None => None
+                end
+  | PsHas c _ => match nth_error (ps_conns s) c with
+                 | Some kc => if pc_open kc then None else Some (PIoClosed t)
+                 | None => None
+                 end
+  | PsRel1 _ _ => Some (PRel1 t)
+  | PsRel2 c _ wc => Some (PRel2 t (if wc then [] else p_trim_choice s c))
+  | PsCloseA _ => Some (PCloseA t)
+  | PsCloseB _ => Some (PCloseB t)
+  | PsDone => None
+  end.
+
+Definition p_internal_dial (honour : bool) (s : pstate) (d : nat) (dd : pdial) : option plabel :=
+  match pd_stage dd with
+  | PdDialing => if honour && (ps_closed s || match pd_result dd with Some _ => true | None => false end)
+                 then Some (PDialFail d) else None
+  | PdGot _ => Some (PDialFinish d)
+  | PdEnd => None
+  end.
+
+Fixpoint p_first_task (maxs : nat) (s : pstate) (ts : list ptask) (off : nat) : option plabel :=
+  match ts with
+  | [] => None
+  | k :: tl => match p_internal_task maxs s off k with Some l => Some l | None => p_first_task maxs s tl (S off) end
+  end.
+Fixpoint p_first_dial (honour : bool) (s : pstate) (ds : list pdial) (off : nat) : option plabel :=
+  match ds with
+  | [] => None
+  | d :: tl => match p_internal_dial honour s off d with Some l => Some l | None => p_first_dial honour s tl (S off) end
+  end.
+
+Definition p_first_internal (honour : bool) (maxs : nat) (s : pstate) : option plabel :=
+  match p_first_dial honour s (ps_dials s) 0 with
+  | Some l => Some l
+  | None => p_first_task maxs s (ps_tasks s) 0
+  end.
+
+Fixpoint p_quiesce (honour : bool) (maxs : nat) (fuel : nat) (s : pstate) : pstate :=
+  match fuel with
+  | O => s
+  | S f => match p_first_internal honour maxs s with
+           | Some l => match p_step s l with Some s' => p_quiesce honour maxs f s' | None => s end
+           | None => s
+           end
+  end.
+
+Fixpoint open_conn_indices (l : list pconn) (off : nat) : list nat :=
+  match l with
+  | [] => []
+  | k :: tl => (if pc_open k then [off] else []) ++ open_conn_indices tl (S off)
+  end.
+
+Definition p_conn_of (s : pstate) (t : nat) : option nat :=
+  match nth_error (ps_tasks s) t with
+  | Some k => match pt_stage k with PsHas c _ => Some c | _ => None end
+  | None => None
+  end.
+
+Definition p_ext_labels (s : pstate) (e : xev) : option (list plabel) :=
+  match e with
+  | XSpawn => Some [PSpawn]
+  | XDialOk d => Some [PDialOk d]
+  | XDialFail d => Some [PDialFail d]
+  | XReply t => Some [PIoOk t]
+  | XPeerErr t => match p_conn_of s t with Some c => Some [PReadErr c] | None => None end
+  | XCancel t => Some [PCancel t]
+  | XIdle => Some (map PReadErr (open_conn_indices (ps_conns s) 0))
+  | XClose => Some [PClose]
+  end.
+
+Definition p_big (honour : bool) (maxs : nat) (s : pstate) (e : xev) : option pstate :=
+  match p_ext_labels s e with
+  | Some ls => match p_run s ls with
+               | Some s1 => Some (p_quiesce honour maxs big_fuel s1)
+               | None => None
+               end
+  | None => None
+  end.
+
+Definition p_quiet (honour : bool) (maxs : nat) (s : pstate) : bool :=
+  match p_first_internal honour maxs s with None => true | Some _ => false end.
+
+Definition p_is_dialing (s : pstate) (d : nat) : bool :=
+  match nth_error (ps_dials s) d with
+  | Some dd => match pd_stage dd with PdDialing => true | _ => false end
+  | None => false
+  end.
+
+Definition p_is_waiting_reply (s : pstate) (t : nat) : bool :=
+  match p_conn_of s t with Some _ => true | None => false end.
+Definition r_is_waiting_reply (s : rstate) (t : nat) : bool :=
+  match nth_error (rs_tasks s) t with
+  | Some k => match rt_stage k with RsHas _ _ => true | _ => false end
+  | None => false
+  end.
+
+(* ---- what closing an upstream of each kind leaves behind (the libraries net/http, quic-go are modelled,
+   not verified: this table mirrors the code as it is and is compared with the real upstreams on every run).
+     up_after_fails k used : an exchange started after Close fails
+     up_leak k             : sockets created by the upstream that are still open after Close
+     up_inflight_prompt k  : an exchange whose dial / reply is pending at Close fails at Close, not at its own deadline
+   https: DoHTransport.Close without an extra closer does nothing (K6a).  h3: the extra closer (quic.Transport)
+   does not close the UDP socket it was given, and a never-used transport still dials after Close (K6c, K6d).
+   quic: QuicTransport.Close does not close the UDP socket (K6c); [quic_waiters_fixed] = runDialingCall wakes its
+   waiters when the transport was closed meanwhile (the K6b fix). *)
+Definition up_after_fails (k : ukind) (used : bool) : bool :=
+  match k with KHttps => false | KH3 => used | _ => true end.
+Definition up_leak (k : ukind) : nat :=
+  match k with KHttps | KH3 | KQuic => 1 | _ => 0 end.
+Definition up_inflight_prompt (quic_waiters_fixed : bool) (k : ukind) : bool :=
+  match k with KHttps => false | KQuic => quic_waiters_fixed | _ => true end.
+Definition up_orderly (k : ukind) : bool :=
+  up_after_fails k false && up_after_fails k true && (up_leak k =? 0) && up_inflight_prompt true k.
